@@ -239,7 +239,7 @@ func c01Gen(r *rand.Rand, tier string) []string {
 	n, nIll, nBorder := 4500, 1500, 200
 	budget := 300000.0
 	if tier == "thorough" {
-		n, nIll, nBorder = 150000, 60000, 6000
+		n, nIll, nBorder = 110000, 45000, 5000
 		budget = 500000.0
 	}
 	var out []string
